@@ -18,6 +18,13 @@ ORD_KINDS = {
     "tupstr": (("a", "b"), [("a", "b"), ("a",), ("a", "c"), ("a", "a", "z")]),
     # long all-constant tuples are still tuples everywhere (==, ordering, nesting), not sets
     "tup10": (tuple(range(10)), [tuple(range(10)), tuple(range(9)), tuple(range(11)), (0,), (9, 8, 7, 6, 5, 4, 3, 2, 1, 0), tuple(float(i) for i in range(10))]),
+    # characters outside the Basic Multilingual Plane (an escaping renderer that writes surrogate pairs) and other non-ASCII
+    "astral": ("𝒳", ["𝒳", "𝒴", "", "\ud835", "𝒳a", "x", "\ud835\udcb3"[:1] + "z", "🎲"]),
+    "astral2": ("a🎲b", ["a🎲b", "a🎲", "a🎲c", "ab", "a\ud83cb", "A🎲B"]),
+    "nonascii": ("é日", ["é日", "e日", "é", "é日本", "e\u0301日", "É日"]),
+    # tuples shaped like the keyword records of syntax-tree nodes
+    "tup-record": ((("id", 7), ("name", "bob")), [(("id", 7), ("name", "bob")), (("id", 7),), (("id", 7), ("name", "bo")), (("id", 8), ("name", "bob")), (("id", 7), ("name", "bob"), ("z", 0))]),
+    "tup-name": ((("name", "g"),), [(("name", "g"),), (("name", "f"),), (("name",),), (("name", "g"), ("a", "b"))]),
     "tup12mixed": ((1, "a", 2.5, "b", 3, "c", 4, "d", 5, "e", 6, "f"), [(1, "a", 2.5, "b", 3, "c", 4, "d", 5, "e", 6, "f"), (1, "a")]),
 }
 
@@ -69,6 +76,8 @@ def expressible(v):
     if isinstance(v, tuple):
         return len(v) > 0 and all(expressible(x) for x in v)
     if isinstance(v, str):
+        if any(0xD800 <= ord(ch) <= 0xDFFF for ch in v):
+            return False  # a source text with a lone surrogate has no UTF-8 form: outside the language
         return "\n" not in v and not ('"' in v and "'" in v)
     return isinstance(v, int)
 
